@@ -380,4 +380,303 @@ theorem inv_addArrayAt {s : State} (h : Inv s) (c : Cid) (shape : Shape) (val : 
     simp only [ok]
     exact inv_addMain h c hc hnew shape val hsh (by simpa using hcan)
 
+
+/-! ## reorder_components -/
+
+/-- `Inv` does not depend on the order of the table. -/
+theorem inv_perm {s : State} (h : Inv s) (cs' : List Comp) (hm : ∀ x, x ∈ cs' ↔ x ∈ s.comps)
+    (hnd : (cids cs').Nodup) : Inv { s with comps := cs' } := by
+  obtain ⟨h1, h2, h3, h4, h5, h6, h7⟩ := h
+  have fam : ∀ {ids : List Cid} {mk : Nat → Kind} {n : Nat}, FamOk s.comps ids mk n → FamOk cs' ids mk n := by
+    intro ids mk n hf
+    refine ⟨hf.1, ?_, ?_⟩
+    · intro i hi
+      obtain ⟨c, hc, hh⟩ := hf.2.1 i hi
+      exact ⟨c, (hm c).2 hc, hh⟩
+    · intro c hc a hk
+      exact hf.2.2 c ((hm c).1 hc) a hk
+  refine ⟨hnd, ?_, fam h3, ?_, ?_, h6, ?_⟩
+  · intro c hc; exact h2 c ((hm c).1 hc)
+  · simp only
+    split
+    next hco => simp only [hco, if_true] at h4; exact fam h4
+    next hco =>
+      simp only [hco] at h4
+      exact ⟨h4.1, fun c hc a => h4.2 c ((hm c).1 hc) a⟩
+  · intro hs
+    simp only at hs ⊢
+    have := h5 hs
+    cases hcs : cs' with
+    | nil => rfl
+    | cons x xs =>
+      have : x ∈ s.comps := (hm x).1 (by rw [hcs]; exact List.mem_cons_self)
+      rw [h5 hs] at this; cases this
+  · refine ⟨?_, h7.2⟩
+    intro c hc
+    simp only [cids, List.mem_map] at hc
+    obtain ⟨x, hx, rfl⟩ := hc
+    exact h7.1 _ (List.mem_map.2 ⟨x, (hm x).1 hx, rfl⟩)
+
+theorem find_cid {cs : List Comp} {c : Cid} (hc : c ∈ cids cs) :
+    ∃ x, cs.find? (fun y => y.cid == c) = some x ∧ x ∈ cs ∧ x.cid = c := by
+  simp only [cids, List.mem_map] at hc
+  obtain ⟨y, hy, hyc⟩ := hc
+  cases hf : cs.find? (fun y => y.cid == c) with
+  | none =>
+    have := List.find?_eq_none.1 hf y hy
+    simp [hyc] at this
+  | some x =>
+    refine ⟨x, rfl, List.mem_of_find?_eq_some hf, ?_⟩
+    have := List.find?_some hf
+    simpa using this
+
+theorem cids_lookup {cs : List Comp} : ∀ {ids : List Cid}, (∀ c ∈ ids, c ∈ cids cs) →
+    cids (ids.filterMap fun c => cs.find? (fun y => y.cid == c)) = ids
+  | [], _ => rfl
+  | c :: rest, h => by
+    obtain ⟨x, hx, _, hxc⟩ := find_cid (h c List.mem_cons_self)
+    simp only [List.filterMap_cons, hx]
+    simp only [cids, List.map_cons, hxc]
+    congr 1
+    exact cids_lookup (fun c' hc' => h c' (List.mem_cons_of_mem _ hc'))
+
+theorem inv_reorder {s : State} (h : Inv s) (cs : List Cid) : Inv (reorderImpl s cs).state := by
+  simp only [reorderImpl]
+  split
+  · exact h
+  · rename_i hlen
+    split
+    · exact h
+    · rename_i hperm
+      split
+      · exact h
+      · simp only [ok]
+        simp only [bne_iff_ne, ne_eq, Decidable.not_not] at hlen
+        simp only [Bool.not_eq_true', Bool.not_eq_false, Bool.and_eq_true, List.all_eq_true,
+          List.contains_eq_mem, decide_eq_true_eq] at hperm
+        obtain ⟨hsub, hsup⟩ := hperm
+        have hcids := cids_lookup (cs := s.comps) hsub
+        apply inv_perm h
+        · intro x
+          constructor
+          · intro hx
+            simp only [List.mem_filterMap] at hx
+            obtain ⟨c, _, hf⟩ := hx
+            exact List.mem_of_find?_eq_some hf
+          · intro hx
+            have hxc : x.cid ∈ cs := hsup _ (List.mem_map.2 ⟨x, hx, rfl⟩)
+            obtain ⟨y, hy, hym, hyc⟩ := find_cid (hsub _ hxc)
+            have : y = x := cid_inj h.nodup hym hx hyc
+            subst this
+            exact List.mem_filterMap.2 ⟨_, hxc, hy⟩
+        · rw [hcids]
+          have hp : (cids s.comps).Perm cs :=
+            (List.subperm_of_subset h.nodup hsup).perm_of_length_le (by omega)
+          exact hp.nodup_iff.1 h.nodup
+
+/-! ## update_components -/
+
+theorem mem_of_lookup {α β : Type} [BEq α] [LawfulBEq α] {k : α} {v : β} :
+    ∀ {l : List (α × β)}, l.lookup k = some v → (k, v) ∈ l
+  | [], h => by cases h
+  | (a, b) :: rest, h => by
+    simp only [List.lookup_cons] at h
+    split at h
+    · rename_i heq
+      have : k = a := by simpa using heq
+      cases h
+      subst this
+      exact List.mem_cons_self
+    · exact List.mem_cons_of_mem _ (mem_of_lookup h)
+
+theorem updateCheck_ok {s : State} : ∀ {m : List (Cid × Shape × Nat)}, updateCheck s m = none →
+    ∀ e ∈ m, e.2.1 = s.shape
+  | [], _ => by intro e he; cases he
+  | (c, sh, v) :: rest, h => by
+    simp only [updateCheck] at h
+    split at h
+    · cases h
+    · split at h
+      · cases h
+      · rename_i hsh
+        intro e he
+        rcases List.mem_cons.1 he with rfl | he
+        · simpa using hsh
+        · exact updateCheck_ok h e he
+
+theorem inv_updateComponents {s : State} (h : Inv s) (m : List (Cid × Shape × Nat)) :
+    Inv (updateComponentsImpl s m).state := by
+  simp only [updateComponentsImpl]
+  split
+  · exact h
+  · rename_i hchk
+    simp only [ok, applyUpdates]
+    apply inv_map h
+    · intro c _
+      cases hl : m.lookup c.cid with
+      | none => simp
+      | some p => cases hm : c.kind.isMain <;> simp [hm]
+    · intro c _ hk
+      cases hl : m.lookup c.cid with
+      | none => simp only; exact h.shapes c ‹_› hk
+      | some p =>
+        have hmem : (c.cid, p) ∈ m := mem_of_lookup hl
+        have := updateCheck_ok hchk _ hmem
+        simp only at this
+        simp [hk, Kind.isMain, this]
+
+
+/-! ## update_id -/
+
+def rho (o n : Cid) (x : Cid) : Cid := if x == o then n else x
+def ren (o n : Cid) (x : Comp) : Comp := if x.cid == o then { x with cid := n } else x
+
+theorem ren_cid (o n : Cid) (x : Comp) : (ren o n x).cid = rho o n x.cid := by
+  simp only [ren, rho]; split <;> rfl
+
+theorem ren_kind (o n : Cid) (x : Comp) : (ren o n x).kind = x.kind := by
+  simp only [ren]; split <;> rfl
+
+theorem ren_shape (o n : Cid) (x : Comp) : (ren o n x).shape = x.shape := by
+  simp only [ren]; split <;> rfl
+
+theorem cids_map_ren (o n : Cid) (cs : List Comp) : cids (cs.map (ren o n)) = (cids cs).map (rho o n) := by
+  simp only [cids, List.map_map]
+  apply List.map_congr_left
+  intro x _
+  exact ren_cid o n x
+
+theorem map_rho_absent {o n : Cid} {ids : List Cid} (h : o ∉ ids) : ids.map (rho o n) = ids := by
+  induction ids with
+  | nil => rfl
+  | cons x xs ih =>
+    simp only [List.mem_cons, not_or] at h
+    simp only [List.map_cons, ih h.2, rho]
+    have : (x == o) = false := by simpa using fun hx => h.1 hx.symm
+    simp [this]
+
+theorem map_ren_absent {o n : Cid} {cs : List Comp} (h : o ∉ cids cs) : cs.map (ren o n) = cs := by
+  induction cs with
+  | nil => rfl
+  | cons x xs ih =>
+    simp only [cids, List.map_cons, List.mem_cons, not_or] at h
+    have h2 : o ∉ cids xs := by simpa [cids] using h.2
+    simp only [List.map_cons, ih h2, ren]
+    have : (x.cid == o) = false := by simpa using fun hx => h.1 hx.symm
+    simp [this]
+
+theorem replaceFirst_map {o n : Cid} : ∀ {ids : List Cid}, ids.Nodup → replaceFirst ids o n = ids.map (rho o n)
+  | [], _ => rfl
+  | x :: xs, h => by
+    simp only [List.nodup_cons] at h
+    simp only [replaceFirst, List.map_cons, rho]
+    split
+    · rename_i hx
+      have hxo : x = o := by simpa using hx
+      have : o ∉ xs := hxo ▸ h.1
+      rw [map_rho_absent this]
+    · rw [replaceFirst_map h.2]
+
+theorem nodup_map_rho {o n : Cid} {ids : List Cid} (h : ids.Nodup) (hn : n ∉ ids) : (ids.map (rho o n)).Nodup := by
+  induction ids with
+  | nil => exact List.nodup_nil
+  | cons x xs ih =>
+    simp only [List.nodup_cons, List.mem_cons, not_or] at h hn
+    simp only [List.map_cons, List.nodup_cons, List.mem_map, not_exists, not_and]
+    refine ⟨?_, ih h.2 hn.2⟩
+    intro y hy heq
+    simp only [rho] at heq
+    by_cases hyo : y = o <;> by_cases hxo : x = o <;> simp_all
+
+theorem insertComp_absent' {cs : List Comp} {c : Comp} (h : c.cid ∉ cids cs) : insertComp cs c = cs ++ [c] :=
+  insertComp_fresh h
+
+theorem dictOfPairs_aux : ∀ (cs acc : List Comp), (cids (acc ++ cs)).Nodup → cs.foldl insertComp acc = acc ++ cs
+  | [], acc, _ => by simp
+  | c :: rest, acc, h => by
+    simp only [List.foldl_cons]
+    have hc : c.cid ∉ cids acc := by
+      simp only [cids, List.map_append, List.map_cons, List.nodup_append, List.nodup_cons, List.mem_cons] at h
+      intro hm
+      exact h.2.2 _ (by simpa [cids] using hm) _ (Or.inl rfl) rfl
+    rw [insertComp_fresh hc, dictOfPairs_aux rest (acc ++ [c]) (by simpa [List.append_assoc] using h)]
+    simp
+
+theorem dictOfPairs_nodup {cs : List Comp} (h : (cids cs).Nodup) : dictOfPairs cs = cs := by
+  simp only [dictOfPairs]
+  rw [dictOfPairs_aux cs [] (by simpa using h)]
+  simp
+
+theorem famOk_rename {cs : List Comp} {ids : List Cid} {mk : Nat → Kind} {k : Nat} (o n : Cid)
+    (h : FamOk cs ids mk k) : FamOk (cs.map (ren o n)) (ids.map (rho o n)) mk k := by
+  obtain ⟨h1, h2, h3⟩ := h
+  refine ⟨by simpa using h1, ?_, ?_⟩
+  · intro i hi
+    have hi' : i < ids.length := by simpa using hi
+    obtain ⟨c, hc, hcid, hk⟩ := h2 i hi'
+    refine ⟨ren o n c, List.mem_map.2 ⟨c, hc, rfl⟩, ?_, by rw [ren_kind, hk]⟩
+    simp [ren_cid, hcid]
+  · intro c hc a hk
+    obtain ⟨c0, hc0, rfl⟩ := List.mem_map.1 hc
+    rw [ren_kind] at hk
+    have := h3 c0 hc0 a hk
+    simp [List.getElem?_map, this, ren_cid]
+
+theorem inv_updateId {s : State} (h : Inv s) (old new : Cid) (hn : new < s.next)
+    (hnew : new ∉ cids s.comps) : Inv (updateIdImpl s old new).1 := by
+  simp only [updateIdImpl]
+  split
+  · exact h
+  · have hpn : s.pix.Nodup := famOk_ids_nodup h.pixel pixel_inj h.nodup
+    have hnd' : (cids (s.comps.map (ren old new))).Nodup := by
+      rw [cids_map_ren]; exact nodup_map_rho h.nodup hnew
+    have hcomps : (if (cids s.comps).contains old = true then
+        dictOfPairs (s.comps.map fun x => if (x.cid == old) = true then { x with cid := new } else x)
+        else s.comps) = s.comps.map (ren old new) := by
+      split
+      · have : (s.comps.map fun x => if (x.cid == old) = true then { x with cid := new } else x) = s.comps.map (ren old new) := rfl
+        rw [this, dictOfPairs_nodup hnd']
+      · rename_i hc
+        rw [map_ren_absent (by simpa using hc)]
+    have hpix : (if s.pix.contains old = true then replaceFirst s.pix old new else s.pix) = s.pix.map (rho old new) := by
+      split
+      · exact replaceFirst_map hpn
+      · rename_i hc; rw [map_rho_absent (by simpa using hc)]
+    have hw := h.world
+    have hworld : (if s.world.contains old = true then replaceFirst s.world old new else s.world) = s.world.map (rho old new) := by
+      split
+      · apply replaceFirst_map
+        split at hw
+        · exact famOk_ids_nodup hw world_inj h.nodup
+        · rw [hw.1]; exact List.nodup_nil
+      · rename_i hc; rw [map_rho_absent (by simpa using hc)]
+    simp only [hcomps, hpix, hworld]
+    refine ⟨hnd', ?_, famOk_rename old new h.pixel, ?_, ?_, h.links, ?_⟩
+    · intro c hc hk
+      obtain ⟨c0, hc0, rfl⟩ := List.mem_map.1 hc
+      rw [ren_kind] at hk
+      rw [ren_shape]
+      exact h.shapes c0 hc0 hk
+    · simp only
+      split
+      next hco => simp only [hco, if_true] at hw; exact famOk_rename old new hw
+      next hco =>
+        simp only [hco] at hw
+        refine ⟨by rw [hw.1]; rfl, ?_⟩
+        intro c hc a
+        obtain ⟨c0, hc0, rfl⟩ := List.mem_map.1 hc
+        rw [ren_kind]
+        exact hw.2 c0 hc0 a
+    · intro hs
+      simp only at hs ⊢
+      rw [h.empty hs]; rfl
+    · refine ⟨?_, h.fresh.2⟩
+      intro c hc
+      rw [cids_map_ren] at hc
+      obtain ⟨x, hx, rfl⟩ := List.mem_map.1 hc
+      simp only [rho]
+      split
+      · exact hn
+      · exact h.fresh.1 x hx
+
 end GlueVerif.Lemmas.C17
